@@ -60,6 +60,8 @@ type Node struct {
 	// LastApplied is the state the most recent non-empty block application (proposal
 	// building or validation) ran on, captured through Blockchain.UseMiddleware.
 	LastApplied *appstate.AppState
+	// Collector, when set, is handed to AddBlock instead of the default no-op collector.
+	Collector collector.StatsCollector
 }
 
 // CloneConfig deep-copies what the node mutates (Upgrader changes cfg.Consensus in place).
